@@ -31,6 +31,7 @@ RULE += (" Also: planned failures of every standard exception type (KeyError, At
 RULE += (' Also: host instances are falsy and report len() == 0.')
 RULE += (' Also: a lock type whose instances share one non-re-entrant lock; opaque property values.')
 RULE += (' Also: property values that happen to be awaitable.')
+RULE += (' Also: frozen hosts (__setattr__ raises).')
 ASSUMPTIONS = ["awaiting a handle taken while a value was cached returns that value (unspecified after del; accepted)",
                "the getter's own suspensions are the only scheduling points besides lock waits"]
 EXHAUSTIVE_SUBSPACES = 'all operation sequences of length <= 5 (thorough: 6) over 7 operations; DFS-complete schedule sets for the scenarios counted in scenarios_explored_exhaustively'
@@ -111,8 +112,13 @@ def run_seq(case, stats):
         prop = A.cached_property(getter)
     # the instances are container-like and currently empty: they test false and have length zero (an instance is
     # "absent" only when it IS None, i.e. on access through the class)
-    K = type("K", (), {"p": prop, "__init__": lambda self, tag: setattr(self, "tag", tag),
-                       "__bool__": lambda self: False, "__len__": lambda self: 0})
+    def _frozen(self, name, value):
+        # the hosts are "frozen" like a frozen dataclass: the property keeps its value in the instance's __dict__,
+        # as functools.cached_property does, and never goes through the class's attribute assignment
+        raise AttributeError(f"cannot assign to field {name!r}")
+
+    K = type("K", (), {"p": prop, "__init__": lambda self, tag: self.__dict__.__setitem__("tag", tag),
+                       "__bool__": lambda self: False, "__len__": lambda self: 0, "__setattr__": _frozen})
     prop.__set_name__(K, "p")
     inst = [K(0), K(1)]
     slot = ["absent", "absent"]  # "absent" | "placeholder" | ("value", v)
@@ -293,7 +299,10 @@ def execute(case, choose, cancel_at=None):
 
     lock_type = GlobalLock if case.get("global_lock") else RegLock
     prop = A.cached_property(lock_type)(getter) if case["lock"] else A.cached_property(getter)
-    K = type("K", (), {"p": prop, "__bool__": lambda self: False, "__len__": lambda self: 0})
+    def _frozen(self, name, value):
+        raise AttributeError(f"cannot assign to field {name!r}")
+
+    K = type("K", (), {"p": prop, "__bool__": lambda self: False, "__len__": lambda self: 0, "__setattr__": _frozen})
     prop.__set_name__(K, "p")
     inst = K()
     stored = inst.p if "stored" in case["awaiters"] else None
